@@ -105,9 +105,10 @@ def registrations(T, f, fns, callee, want_args, inline_helpers=True):
 
 def implied(T, e_lits, e_conds, e_frames, r_frames):
     # an early `return` earlier in the block guards everything after it, including the returned value
-    r_frames = [fr for fr in r_frames if not fr.get('early_exit')]
-    e_frames = [fr for fr in e_frames if not fr.get('early_exit')]
-    e_lits = {l for l in e_lits}
+    r_frames = guards.normalize_frames([fr for fr in r_frames if not fr.get('early_exit')])
+    e_frames = guards.normalize_frames([fr for fr in e_frames if not fr.get('early_exit')])
+    e_conds = guards.normalize_conds(e_conds)
+    e_lits = cond_lits(e_conds) | frame_lits(T, e_frames)
     r_lits = frame_lits(T, r_frames)
     if r_lits <= e_lits:
         return True
@@ -250,7 +251,7 @@ def scala_scan(ctx, rep, T):
     site = {'file': f['file'], 'line': f['line']}
     # which variants does the printer map to an alias name?
     fs = ctx.fn('Scala::format_special_type', file='scala.rs')
-    alias_names = [l for l in re.findall(r'"type (\w+) = ', json.dumps(ctx.fn('Scala::write_unsigned_aliases', file='scala.rs')['sites']))]
+    alias_names = [l for l in re.findall(r'"type (\w+) = ', json.dumps(ctx.fnx('Scala::write_unsigned_aliases', file='scala.rs')['sites']))]
     rep.floor('H3', 'scala alias names', len(alias_names), 4)
     emitting = set()
     for m in fs['matches']:
